@@ -28,6 +28,7 @@ pub mod manager;
 pub mod httppages;
 pub mod ribmetrics;
 pub mod rotorib;
+pub mod reconfunits;
 
 /// A pause-point handler installed per thread by a harness.
 pub type PointFn = Arc<dyn Fn(&'static str) + Send + Sync>;
